@@ -60,50 +60,6 @@ def transport_release(ck):
               sig=lambda c, e, o: "release-" + "-".join(sorted({str(cl[0]) for cl in c[2]})), timeout=1500)
 
 
-# ---------------------------------------------------------------- stream ends that go through the registry
-# (appended block; model / oracle: coq/Run/RunC03Reg.v, theorems C03_registry_end_releases, C03_reg_model_passes;
-#  harness command C03_reg = harness/reghist, shared with C05)
-import c05 as C5
-
-REG_RULE = ("histories of registry operations on the real media package with recording consumers (new / regist / unregist / close / "
-            "get / attach / detach / idle-tick / unregist-all; the C05 wire format and model): 60% of the shape publisher A with "
-            "consumers, replaced by B (and C) on another spelling of the path with consumers, the replaced publishers leaving late "
-            "(Unregist / Close / idle tick), then a stream end that goes through the registry (shutdown = UnregistAll, a further "
-            "publisher, Unregist or idle tick of the last one), 40% random; at the end per stream (live, successful attaches, "
-            "Consumer.Close calls recorded); the oracle ok_reg_end_C03 demands that the Close calls of every stream equal "
-            "`released` in the specification's end state: all consumers of an ended stream, the detached ones of a live stream.")
-
-reg_shape = C5.reg_shape      # publisher replaced, old publisher leaves late, a registry-borne end (defined next to C05's generator)
-
-def registry_ends(ck):
-    import vlib
-    rng = ck.rng
-    n = 3000 if ck.thorough else 300
-    raw = []
-    for _ in range(2 * n):
-        if rng.random() < 0.6:
-            raw.append(reg_shape(rng))
-        else:
-            raw.append(C5.gen_case(rng, rng.randint(4, 30 if ck.thorough else 14), [1, 1]))
-    try:
-        wf = vlib.run_driver("C03", "C03_reg_wf", [vlib.vs(c) for c in raw])
-    except vlib.Broken as b:
-        ck.broken.append(b)
-        return
-    cases = [c for c, w in zip(raw, wf) if w == "1"][:n]      # only live streams are registered (hist_wf)
-    ck.stream("registry-ends", cases, "C03_reg_run", "C03_reg", "C03_reg_ok",
-              nontrivial=lambda c: sum(1 for o in c[1] if o[0] == 1) >= 2 and any(o[0] == 7 for o in c[1])
-                                   and any(o[0] in (2, 10) for o in c[1]),
-              sig=lambda c, e, o: "registry-ends", timeout=900)
-
-_transport_release_before_registry = transport_release
-def transport_release(ck):
-    _transport_release_before_registry(ck)
-    registry_ends(ck)
-
-RELEASE_RULE = RELEASE_RULE + " (5) stream ends through the registry: " + REG_RULE
-
-
 # ---------------------------------------------------------------- conversion goroutines
 # (appended; run() calls transport_release by name, which is extended at the end of this file)
 W, CL, PR = 0, 1, 2     # harness-granularity steps: worker, closer (Close in one piece), producer (one Push)
